@@ -1,5 +1,6 @@
 import XdocModel.Checker
 import XdocModel.Lemmas.Checker
+import XdocModel.Lemmas.Collapse
 import XdocModel.Proofs.C06
 /-!
 # C05 — Output matching equals the documented relation for every flag combination
@@ -118,7 +119,8 @@ theorem mono_ellipsis (f : Flags) (g w : Str) (hnr : f.normRepr = false)
 
 /-- ◐ NORMALIZE_WHITESPACE (guard: NORMALIZE_REPR off and ELLIPSIS off).
     Missing for the full statement: ELLIPSIS on (needs "collapse respects the piece
-    decomposition"), and NORMALIZE_REPR on where the sentence is false (K-C05-a). -/
+    decomposition"), and NORMALIZE_REPR on where the sentence is false (K-C05-a).
+    Superseded by `mono_normalize_whitespace` below (ELLIPSIS guard removed). -/
 theorem mono_normalize_whitespace_partial (f : Flags) (g w : Str) (hnr : f.normRepr = false)
     (he : f.ellipsis = false)
     (h : checkOutput { f with normWs := false } g w = true) :
@@ -137,7 +139,8 @@ theorem mono_normalize_whitespace_partial (f : Flags) (g w : Str) (hnr : f.normR
     · simp only [↓reduceIte] at h ⊢; exact h
 
 /-- ◐ IGNORE_WHITESPACE (guard: NORMALIZE_REPR off and ELLIPSIS off).
-    Missing: ELLIPSIS on, where the sentence is false in class K-C05-d. -/
+    Missing: ELLIPSIS on, where the sentence is false in class K-C05-d.
+    Superseded by `mono_ignore_whitespace` below (ELLIPSIS on under the split-stability guard). -/
 theorem mono_ignore_whitespace_partial (f : Flags) (g w : Str) (hnr : f.normRepr = false)
     (he : f.ellipsis = false)
     (h : checkOutput { f with ignWs := false } g w = true) :
@@ -155,6 +158,118 @@ theorem mono_ignore_whitespace_partial (f : Flags) (g w : Str) (hnr : f.normRepr
     · simp only [Bool.false_eq_true, ↓reduceIte] at h
       rw [deleteWs_collapse, deleteWs_collapse, h]
     · simp only [↓reduceIte] at h; rw [h]
+
+/-- ★ "collapse respects the piece decomposition": the wildcard relation survives collapsing the
+    whitespace runs of both texts, for ALL strings (no guard). -/
+theorem ellipsisMatch_collapse (a b : Str) (h : ellipsisMatch a b = true) :
+    ellipsisMatch (collapse a) (collapse b) = true := by
+  by_cases hd : contains dots b = true
+  · have hd' : contains dots (collapse b) = true := by rw [contains_dots_collapse]; exact hd
+    obtain ⟨first, mids, last, hs, mid, ha, hm⟩ := (C06.ellipsis_iff_spec a b hd).mp h
+    obtain ⟨h1, mid', h2, h3⟩ := spec_collapse hs ha hm
+    exact (C06.ellipsis_iff_spec _ _ hd').mpr ⟨_, _, _, h1, mid', h2, h3⟩
+  · have hd0 : contains dots b = false := by simpa using hd
+    have := (C06.ellipsis_no_dots a b hd0).mp h
+    subst this
+    exact (C06.ellipsis_no_dots _ _ (by rw [contains_dots_collapse]; exact hd0)).mpr rfl
+
+/-- ★ the wildcard relation survives deleting all whitespace from both texts, provided that
+    deleting whitespace maps the pieces of the want one by one (otherwise false: K-C05-d). -/
+theorem ellipsisMatch_deleteWs (a b : Str)
+    (hg : splitEllipsis (deleteWs b) = (splitEllipsis b).map deleteWs)
+    (h : ellipsisMatch a b = true) :
+    ellipsisMatch (deleteWs a) (deleteWs b) = true := by
+  by_cases hd : contains dots b = true
+  · have hd' : contains dots (deleteWs b) = true := by rw [contains_dots_deleteWs hg]; exact hd
+    obtain ⟨first, mids, last, hs, mid, ha, hm⟩ := (C06.ellipsis_iff_spec a b hd).mp h
+    obtain ⟨h1, h2, h3⟩ := spec_deleteWs hg hs ha hm
+    exact (C06.ellipsis_iff_spec _ _ hd').mpr ⟨_, _, _, h1, _, h2, h3⟩
+  · have hd0 : contains dots b = false := by simpa using hd
+    have := (C06.ellipsis_no_dots a b hd0).mp h
+    subst this
+    exact (C06.ellipsis_no_dots _ _ (by rw [contains_dots_deleteWs hg]; exact hd0)).mpr rfl
+
+/-- ★ NORMALIZE_WHITESPACE (guard: NORMALIZE_REPR off only; ELLIPSIS on or off).
+    With NORMALIZE_REPR on the sentence is false (K-C05-a). -/
+theorem mono_normalize_whitespace (f : Flags) (g w : Str) (hnr : f.normRepr = false)
+    (h : checkOutput { f with normWs := false } g w = true) :
+    checkOutput { f with normWs := true } g w = true := by
+  obtain ⟨e, nw, iw, nr, nb, d⟩ := f
+  simp only at hnr; subst hnr
+  rw [checkOutput_nr_off _ rfl] at h ⊢
+  rcases h with h | h | h
+  · exact Or.inl h
+  · exact Or.inr (Or.inl h)
+  · refine Or.inr (Or.inr ?_)
+    cases iw
+    · simp only [checkMatch, norm1, wsNorm, Bool.or_false, Bool.false_eq_true, ↓reduceIte,
+        Bool.or_eq_true, beq_iff_eq, Bool.and_eq_true] at h ⊢
+      rcases h with h | ⟨h1, h2⟩
+      · exact Or.inl (by rw [h])
+      · exact Or.inr ⟨h1, ellipsisMatch_collapse _ _ h2⟩
+    · exact h
+
+/-- ★ IGNORE_WHITESPACE (guard: NORMALIZE_REPR off, and ELLIPSIS off or deleting whitespace does
+    not create, destroy or move an ellipsis separator of the collapsed, base-normalised want).
+    Without the second guard the sentence is false (K-C05-d). -/
+theorem mono_ignore_whitespace (f : Flags) (g w : Str) (hnr : f.normRepr = false)
+    (hg : f.ellipsis = false ∨
+      splitEllipsis (deleteWs (collapse (baseNorm (!f.noBlank) w))) =
+        (splitEllipsis (collapse (baseNorm (!f.noBlank) w))).map deleteWs)
+    (h : checkOutput { f with ignWs := false } g w = true) :
+    checkOutput { f with ignWs := true } g w = true := by
+  rcases hg with he | hg
+  · exact mono_ignore_whitespace_partial f g w hnr he h
+  obtain ⟨e, nw, iw, nr, nb, d⟩ := f
+  simp only at hnr hg; subst hnr
+  rw [checkOutput_nr_off _ rfl] at h ⊢
+  rcases h with h | h | h
+  · exact Or.inl h
+  · exact Or.inr (Or.inl h)
+  · refine Or.inr (Or.inr ?_)
+    simp only [checkMatch, norm1, wsNorm, Bool.or_true, Bool.or_false, ↓reduceIte,
+      Bool.or_eq_true, beq_iff_eq, Bool.and_eq_true, Bool.true_and, Bool.false_eq_true] at h ⊢
+    cases nw
+    · simp only [Bool.false_eq_true, ↓reduceIte] at h
+      rcases h with h | ⟨h1, h2⟩
+      · exact Or.inl (by rw [h])
+      · exact Or.inr ⟨h1, ellipsisMatch_deleteWs _ _ hg (ellipsisMatch_collapse _ _ h2)⟩
+    · simp only [↓reduceIte] at h
+      rcases h with h | ⟨h1, h2⟩
+      · exact Or.inl (by rw [h])
+      · exact Or.inr ⟨h1, ellipsisMatch_deleteWs _ _ hg h2⟩
+
+/-- the guard of `mono_ignore_whitespace` in the form of DESIGN.md (`deleteWs ∘ collapse = deleteWs`) -/
+theorem ignWs_guard_iff (w : Str) :
+    splitEllipsis (deleteWs (collapse w)) = (splitEllipsis (collapse w)).map deleteWs ↔
+    splitEllipsis (deleteWs w) = (splitEllipsis (collapse w)).map deleteWs := by
+  rw [deleteWs_collapse]
+
+/-! non-vacuity of the four theorems above: concrete instances of their hypotheses (and of the
+    conclusions they yield), ELLIPSIS on, whitespace inside and around the pieces -/
+example : ellipsisMatch "a \n x  b \t c ".toList "a  ...  b \t c ".toList = true := by decide +kernel
+example : ellipsisMatch (collapse "a \n x  b \t c ".toList) (collapse "a  ...  b \t c ".toList) = true := by
+  decide +kernel
+example : splitEllipsis (deleteWs "a ... b c ...".toList) = (splitEllipsis "a ... b c ...".toList).map deleteWs ∧
+    ellipsisMatch "a q\tb c\n".toList "a ... b c ...".toList = true := by decide +kernel
+example : ellipsisMatch (deleteWs "a q\tb c\n".toList) (deleteWs "a ... b c ...".toList) = true := by
+  decide +kernel
+example :
+    checkOutput { ellipsis := true, normWs := false, ignWs := false, normRepr := false, noBlank := false }
+      "x  1\n  y  z".toList "x ...\n  y  z".toList = true ∧
+    checkOutput { ellipsis := true, normWs := true, ignWs := false, normRepr := false, noBlank := false }
+      "x  1\n  y  z".toList "x ...\n  y  z".toList = true := by decide +kernel
+example :
+    let f : Flags := { ellipsis := true, normWs := false, ignWs := false, normRepr := false, noBlank := false }
+    let w := "a ... b  c".toList
+    splitEllipsis (deleteWs (collapse (baseNorm (!f.noBlank) w))) =
+        (splitEllipsis (collapse (baseNorm (!f.noBlank) w))).map deleteWs ∧
+    checkOutput { f with ignWs := false } "a  q b  c".toList w = true ∧
+    checkOutput { f with ignWs := true } "a  q b  c".toList w = true := by decide +kernel
+/-- the guard of `mono_ignore_whitespace` is what excludes K-C05-d -/
+example :
+    splitEllipsis (deleteWs (collapse (baseNorm true ".\t...".toList))) ≠
+      (splitEllipsis (collapse (baseNorm true ".\t...".toList))).map deleteWs := by decide +kernel
 
 /-- ◐ NORMALIZE_REPR (guard: ELLIPSIS off). With ELLIPSIS on the second quote-stripping call
     uses got as the pattern; not proved. -/
